@@ -339,12 +339,18 @@ func vFrame(tcp bool, wire []byte) []byte {
 // ---------------------------------------------------------------- crypto answers for the model
 
 type vTables struct {
+	tag  []byte // the tag of the message the next answers are about
 	hm   []string
 	ae   []string
 	seen map[string]bool
 }
 
+// only answers that equal the tag on the wire are recorded: for any other answer "not in the table" and "in the table
+// but different" lead the model to the same decision (no tag found), and the cases stay small
 func (t *vTables) addHM(d int, key, plain, out []byte) {
+	if !bytes.Equal(out, t.tag) {
+		return
+	}
 	s := fmt.Sprintf("(%d,%s,%s,%s)", d, cHex(key), cHex(plain), cHex(out))
 	if !t.seen[s] {
 		t.seen[s] = true
@@ -380,6 +386,7 @@ func (t *vTables) cryptWith(body []byte, hdr *MessageHeader, sk *StaticKey) {
 		}
 		for i, ad := range AuthDigests {
 			if ad.Size == len(m2.HMAC) {
+				t.tag = m2.HMAC
 				t.addHM(i, hk, m2.ToBytesAuth(), vHMAC(i, hk, m2.ToBytesAuth()))
 			}
 		}
@@ -391,6 +398,7 @@ func (t *vTables) cryptWith(body []byte, hdr *MessageHeader, sk *StaticKey) {
 	}
 	for i, ad := range AuthDigests {
 		if ad.Size == len(mc.HMAC) {
+			t.tag = mc.HMAC
 			t.addHM(i, sk.GetClientAuthKey(ad.Size), mc.ToBytesAuth(), ad.HMACGenerateOnClient(sk, mc.ToBytesAuth()))
 		}
 	}
@@ -412,6 +420,7 @@ func vBuildTables(c *vCfg, body []byte, hb byte) *vTables {
 		}
 		for i, ad := range AuthDigests {
 			if ad.Size == len(ma.HMAC) {
+				t.tag = ma.HMAC
 				t.addHM(i, c.m.groupKeyAuth.GetClientAuthKey(ad.Size), ma.ToBytesAuth(), ad.HMACGenerateOnClient(c.m.groupKeyAuth, ma.ToBytesAuth()))
 				// and for the quarter the documentation prescribes for tls-auth under the configured direction
 				dk := vClientHMACKey(c.gk, c.dir, ad.Size)
@@ -441,6 +450,7 @@ func vBuildTables(c *vCfg, body []byte, hb byte) *vTables {
 			}
 			for i, ad := range AuthDigests {
 				if ad.Size == len(wk.HMAC) {
+					t.tag = wk.HMAC
 					t.addHM(i, sk.GetServerAuthKey(ad.Size), wk.ToBytesAuth(), ad.HMACGenerateOnServer(sk, wk.ToBytesAuth()))
 				}
 			}
@@ -492,6 +502,7 @@ type vOvpn struct {
 	seen map[string]bool
 	nMatch int
 	thin   uint64
+	fromThin uint64 // sampling of codec correspondence cases in the current sweep (quick tier)
 }
 
 func (e *vOvpn) want(p string) bool { return e.prop == "" || e.prop == p }
@@ -510,7 +521,7 @@ func (e *vOvpn) match(c *vCfg, ld int, tcp bool, in []byte, cls string, nt bool)
 	key := fmt.Sprintf("%s|%d|%v|%x", c.name, ld, tcp, in)
 	// correspondence cases are sampled (deterministically, by a hash of the case) so that the in-Coq evaluation
 	// stays short: long inputs are sampled more thinly, matches less thinly; the oracles see every evaluation
-	mod := uint64(5 + len(in)/16)
+	mod := uint64(6 + len(in)/5)
 	if vThorough() {
 		mod = uint64(1 + len(in)/300)
 	}
@@ -728,7 +739,7 @@ func (e *vOvpn) c14(c *vCfg, v vVariant, tcp bool) {
 func TestVerifMovpn(t *testing.T) {
 	out := vOpen()
 	defer out.Close()
-	e := &vOvpn{out: out, rng: vNewRng(vSeed()), prop: os.Getenv("VERIF_PROP"), seen: map[string]bool{}}
+	e := &vOvpn{out: out, rng: vNewRng(vSeed()), prop: os.Getenv("VERIF_PROP"), seen: map[string]bool{}, fromThin: 1}
 	vMeasureAlloc = e.want("C04")
 
 	// ---- constants the models write out
@@ -1094,7 +1105,9 @@ func (e *vOvpn) keyCase(kb []byte, bidi, inverse bool, which, size int) {
 		}
 		obs = "(Some " + cHex(k) + ")"
 	}()
-	e.out.Case(fmt.Sprintf("KKey (%s,%s,%s) %d %d %s", cBool(bidi), cBool(inverse), cHex(kb), which, size, obs), "key", len(kb) >= 128, nil)
+	if vThorough() || (len(kb)+which+size/4)%3 == 0 {
+		e.out.Case(fmt.Sprintf("KKey (%s,%s,%s) %d %d %s", cBool(bidi), cBool(inverse), cHex(kb), which, size, obs), "key", len(kb) >= 128, nil)
+	}
 }
 
 // ---------------------------------------------------------------- C18: codecs
@@ -1181,7 +1194,32 @@ func (p vParsed) coqFlat() string {
 	return fmt.Sprintf("[%s] [%s]", strings.Join(ints, "; "), strings.Join(bs, ";"))
 }
 
+// state of the receiver FromBytes* is called on: 0 fresh (&T{}); 1 reused after a successful parse of another valid message
+// (and, where the type has such fields, after Authenticate left a digest / FromBytesCrypt left the decrypted tail);
+// 2 pre-filled the way MatchOpenVPN.Match pre-fills a MessageAuth (Digest: lastDigest)
+type vRecv struct {
+	kind int
+	dg   int    // digest the receiver holds (index into AuthDigests)
+	prev uint8  // PrevPacketIDsCount left by FromBytesCrypt
+	pid  uint32 // ThisPacketID left by FromBytesCrypt
+}
+
+var (
+	vValidPlain  = append([]byte{0x38}, bytes.Repeat([]byte{0x11}, 8+1+4)...)
+	vValidAuth   = append([]byte{0x38}, bytes.Repeat([]byte{0x22}, 8+16+4+4+1+4)...)
+	vValidCrypt  = append([]byte{0x38}, bytes.Repeat([]byte{0x33}, 53)...)
+	vValidWK     = append(bytes.Repeat([]byte{0x44}, 288), 0x01, 0x22)
+	vValidCrypt2 = append(append([]byte{0x50}, bytes.Repeat([]byte{0x55}, 53)...), vValidWK...)
+)
+
 func vParse(ty int, headless bool, hb byte, src []byte) (p vParsed, code int) {
+	p, code, _ = vParseOn(ty, headless, hb, src, vRecv{})
+	return
+}
+
+// dgAfter: the digest the MessageAuth receiver holds after the call (-1 nil, -3 not applicable)
+func vParseOn(ty int, headless bool, hb byte, src []byte, rc vRecv) (p vParsed, code int, dgAfter int) {
+	dgAfter = -3
 	defer func() {
 		if r := recover(); r != nil {
 			code = -2
@@ -1190,6 +1228,81 @@ func vParse(ty int, headless bool, hb byte, src []byte) (p vParsed, code int) {
 	hdr := &MessageHeader{}
 	_ = hdr.FromBytes([]byte{hb})
 	var err error
+	tail := append([]byte{rc.prev}, vBE32(rc.pid)...)
+	if rc.kind != 0 {
+		switch ty {
+		case 1:
+			m := &MessagePlain{}
+			_ = m.FromBytes(vValidPlain)
+			if headless {
+				err = m.FromBytesHeadless(src, hdr)
+			} else {
+				err = m.FromBytes(src)
+			}
+			if err == nil {
+				p = vParsed{flat: vFlat{append(vFlatHdr(m.MessageHeader), 0, int64(m.PrevPacketIDsCount), int64(m.ThisPacketID)), nil}, sid: m.LocalSessionID, tb: m.ToBytes()}
+			}
+		case 2:
+			m := &MessageAuth{}
+			if rc.kind == 1 {
+				_ = m.FromBytes(vValidAuth)
+			}
+			m.Digest = AuthDigests[rc.dg]
+			if headless {
+				err = m.FromBytesHeadless(src, hdr)
+			} else {
+				err = m.FromBytes(src)
+			}
+			dgAfter = vDigestIdx(m.Digest)
+			if err == nil {
+				p = vParsed{flat: vFlat{append(vFlatHdr(m.MessageHeader), 0, int64(m.ReplayPacketID), int64(m.ReplayTimestamp), int64(m.PrevPacketIDsCount), int64(m.ThisPacketID)),
+					[][]byte{m.HMAC}}, sid: m.LocalSessionID, tb: m.ToBytes()}
+			}
+		case 3:
+			m := &MessageCrypt{}
+			_ = m.FromBytes(vValidCrypt)
+			_ = m.FromBytesCrypt(tail)
+			if headless {
+				err = m.FromBytesHeadless(src, hdr)
+			} else {
+				err = m.FromBytes(src)
+			}
+			if err == nil {
+				p = vParsed{flat: vFlatCrypt(m), sid: m.LocalSessionID, tb: m.ToBytes()}
+			}
+		case 4:
+			m := &WrappedKey{}
+			_ = m.FromBytes(vValidWK)
+			m.StaticKey.KeyBytes, m.MetaData.Type, m.MetaData.Payload = bytes.Repeat([]byte{9}, 256), 1, []byte{1, 2, 3}
+			if err = m.FromBytes(src); err == nil {
+				p = vParsed{flat: vFlat{nil, [][]byte{m.HMAC, m.Encrypted}}, tb: m.ToBytes()}
+			}
+		case 5:
+			m := &MessageCrypt2{}
+			_ = m.FromBytes(vValidCrypt2)
+			_ = m.MessageCrypt.FromBytesCrypt(tail)
+			m.WrappedKey.StaticKey.KeyBytes = bytes.Repeat([]byte{9}, 256)
+			if headless {
+				err = m.FromBytesHeadless(src, hdr)
+			} else {
+				err = m.FromBytes(src)
+			}
+			if err == nil {
+				f := vFlatCrypt(&m.MessageCrypt)
+				f.blobs = append(f.blobs, m.WrappedKey.HMAC, m.WrappedKey.Encrypted)
+				p = vParsed{flat: f, sid: m.LocalSessionID, tb: m.ToBytes()}
+			}
+		default:
+			m := &MessageHeader{Opcode: 31, KeyID: 7}
+			if err = m.FromBytes(src); err == nil {
+				p = vParsed{flat: vFlat{vFlatHdr(*m), nil}, tb: m.ToBytes()}
+			}
+		}
+		if err != nil {
+			return p, 1 + vErrCode(err), dgAfter
+		}
+		return p, 0, dgAfter
+	}
 	switch ty {
 	case 0:
 		m := &MessageHeader{}
@@ -1246,9 +1359,9 @@ func vParse(ty int, headless bool, hb byte, src []byte) (p vParsed, code int) {
 		}
 	}
 	if err != nil {
-		return p, 1 + vErrCode(err)
+		return p, 1 + vErrCode(err), dgAfter
 	}
-	return p, 0
+	return p, 0, dgAfter
 }
 
 // lengths the wire definition allows, written out (not taken from the module's constants)
@@ -1278,12 +1391,27 @@ func vLenValid(ty int, headless bool, n int) bool {
 }
 
 func (e *vOvpn) fromCase(ty int, headless bool, hb byte, src []byte) {
+	e.fromCaseOn(ty, headless, hb, src, vRecv{}, e.fromThin)
+	// receivers that are not fresh: reused after another valid message; for MessageAuth also pre-filled with a digest the
+	// way the matcher does (rotating through the table, so that sizes equal to and different from the HMAC part occur)
+	k := (len(src)*7 + ty) % len(AuthDigests)
+	e.fromCaseOn(ty, headless, hb, src, vRecv{kind: 1, dg: k, prev: uint8(1 + len(src)%200), pid: uint32(len(src))*2654435761 | 1}, 3*e.fromThin)
+	if ty == 2 {
+		e.fromCaseOn(ty, headless, hb, src, vRecv{kind: 2, dg: (k + 5) % len(AuthDigests)}, 3*e.fromThin)
+	}
+}
+
+func (e *vOvpn) fromCaseOn(ty int, headless bool, hb byte, src []byte, rc vRecv, thin uint64) {
 	if ty == 0 || ty == 4 {
 		headless = false
 	}
-	p, code := vParse(ty, headless, hb, src)
+	p, code, dgAfter := vParseOn(ty, headless, hb, src, rc)
 	name := vTypeNames[ty]
-	inp := map[string]any{"type": name, "headless": headless, "src": hex.EncodeToString(src), "len": len(src)}
+	inp := map[string]any{"type": name, "headless": headless, "src": hex.EncodeToString(src), "len": len(src),
+		"receiver": []string{"fresh", "reused after another valid message", "pre-filled with a digest (as Match does)"}[rc.kind]}
+	if rc.kind != 0 && ty == 2 {
+		inp["receiver_digest"] = AuthDigests[rc.dg].Names[0]
+	}
 	obs := "FPanic"
 	switch {
 	case code == 0:
@@ -1307,8 +1435,35 @@ func (e *vOvpn) fromCase(ty int, headless bool, hb byte, src []byte) {
 	for d := -2; d <= 2; d++ {
 		near = near || vLenValid(ty, headless, len(src)+d)
 	}
-	e.out.Case(fmt.Sprintf("KFrom %d %s %d %s %s %s", ty, cBool(headless), hb, cHex(src), obs, cHex(p.tb)),
-		fmt.Sprintf("from/%s/%v", name, code == 0), near, nil)
+	// in the quick tier the correspondence cases of the bulky sweeps are a deterministic sample (every accepted input is kept);
+	// the oracles below see every call
+	hsh := uint64(14695981039346656037)
+	for _, b := range src {
+		hsh = (hsh ^ uint64(b)) * 1099511628211
+	}
+	hsh = (hsh ^ uint64(ty*8+rc.kind*2)) * 1099511628211
+	if len(src) >= 200 && thin < 4 {
+		thin = 4 // wrapped keys and crypt2 messages are bulky
+	}
+	if vThorough() || thin <= 1 || code == -2 || (hsh>>13)%thin == 0 || (code == 0 && (len(src) < 200 || (hsh>>9)%3 == 0)) {
+		if rc.kind == 0 {
+			e.out.Case(fmt.Sprintf("KFrom %d %s %d %s %s %s", ty, cBool(headless), hb, cHex(src), obs, cHex(p.tb)),
+				fmt.Sprintf("from/%s/%v", name, code == 0), near, nil)
+		} else {
+			st, st2 := "[]", "[]"
+			switch ty {
+			case 2:
+				st, st2 = fmt.Sprintf("[%d]", rc.dg), "["+cZ(int64(dgAfter))+"]"
+			case 3, 5:
+				st = fmt.Sprintf("[%d; %d]", rc.prev, rc.pid)
+			}
+			e.out.Case(fmt.Sprintf("KFromSt %d %s %d %s %s %s %s %s", ty, cBool(headless), hb, st, cHex(src), obs, cHex(p.tb), st2),
+				fmt.Sprintf("from-recv%d/%s/%v", rc.kind, name, code == 0), near, nil)
+		}
+	}
+	if rc.kind != 0 && ty == 2 && dgAfter != rc.dg && code != -2 {
+		e.out.Fail("C18:"+name+":receiver-state-changed", "FromBytes changed the Digest the receiver held", inp)
+	}
 	if code == -2 {
 		e.out.Fail("C04:openvpn-codec:panic", name+".FromBytes panicked", inp)
 		return
@@ -1388,6 +1543,7 @@ func (e *vOvpn) codecs() {
 			wkLens = append(wkLens, n)
 		}
 	}
+	e.fromThin = 8
 	for _, wl := range wkLens {
 		trailers := map[int]bool{0: true, 1: true, 2: true, 34: true, 289: true, 290: true, 291: true, 1023: true, 1024: true, 1025: true, 65535: true,
 			wl + 53: true, wl + 54: true, wl + 256: true, (wl + 290) / 2: true}
@@ -1415,6 +1571,7 @@ func (e *vOvpn) codecs() {
 			e.fromCase(5, false, 0x50, append([]byte{0x50}, body...))
 		}
 	}
+	e.fromThin = 1
 	// ToBytes on generated field values (well-formed and out-of-range), and the second inverse law
 	n := vN(300)
 	for i := 0; i < n; i++ {
@@ -1466,9 +1623,14 @@ func (e *vOvpn) codecs() {
 		e.out.Case(fmt.Sprintf("KToAuth 3 %s [%s;%s] %s", ai, cHex(ctag), cHex(enc), cHex(mc.ToBytesAuth())), "toauth/MessageCrypt", wf, nil)
 		// wrapped key, crypt2
 		wk := WrappedKey{MessageTraitAuth: MessageTraitAuth{HMAC: wtag}, MessageTraitCrypt: MessageTraitCrypt{Encrypted: wenc}}
-		e.out.Case(fmt.Sprintf("KTo 4 [] [%s;%s] %s", cHex(wtag), cHex(wenc), cHex(wk.ToBytes())), "to/WrappedKey", wf, nil)
+		bulky := vThorough() || i%4 == 0
+		if bulky {
+			e.out.Case(fmt.Sprintf("KTo 4 [] [%s;%s] %s", cHex(wtag), cHex(wenc), cHex(wk.ToBytes())), "to/WrappedKey", wf, nil)
+		}
 		mr := &MessageCrypt2{MessageCrypt: *mc, WrappedKey: wk}
-		e.out.Case(fmt.Sprintf("KTo 5 %s [%s;%s;%s;%s] %s", ai, cHex(ctag), cHex(enc), cHex(wtag), cHex(wenc), cHex(mr.ToBytes())), "to/MessageCrypt2", wf, nil)
+		if bulky {
+			e.out.Case(fmt.Sprintf("KTo 5 %s [%s;%s;%s;%s] %s", ai, cHex(ctag), cHex(enc), cHex(wtag), cHex(wenc), cHex(mr.ToBytes())), "to/MessageCrypt2", wf, nil)
+		}
 
 		if !wf {
 			continue
